@@ -140,8 +140,8 @@ common::register! {
     t_1x2 = s_1x2 => 3,
     t_2x1 = s_2x1 => 3,
     t_owned = owned => 2,
-    t_255 = f_255 => 2,
-    t_p254 = p_254 => 2,
+    q_255 = f_255 => 2,
+    q_p254 = p_254 => 2,
     t_2x21 = s_2x21 => 3,
     t_2x01 = s_2x01 => 3,
     t_3x1 = s_3x1 => 4,
